@@ -781,6 +781,7 @@ def judge(variant, seq, ending, obs, model_trace, baseline, model_oc):
             where="constructor")
     # ---- calls
     dirty = False
+    diverged = False     # after the first disagreement with the model the later ones are its consequences
     for i, o in enumerate(obs["ops"]):
         op = o["op"]
         ir = canon_impl_result(o["r"])
@@ -817,23 +818,29 @@ def judge(variant, seq, ending, obs, model_trace, baseline, model_oc):
                 op=op, dirty=dirty)
             handled = True
         # correspondence with the model
-        if i < len(model_trace):
+        if diverged:
+            pass
+        elif i < len(model_trace):
             mr_t, mev, mfp = model_trace[i]
             mr = canon_model_result(mr_t, v.names)
             same = match_deliv(mr, ir, parents) if op == "xall_p" else (mr == ir)
             if not same:
                 add("model-mismatch", "%s: implementation %r, model %r" % (op, _short(ir), _short(mr)), concrete=False, op=op,
                     part="result")
+                diverged = True
             elif ir != ["hang"]:
                 ce, me = canon_events(o["events"]), canon_model_events(mev)
                 if ce != me:
                     add("model-mismatch", "%s: file operations %r, model %r" % (op, ce, me), concrete=False, op=op, part="events")
+                    diverged = True
                 elif o["tell"] != mfp:
                     add("model-mismatch", "%s: fp at %r, model %r" % (op, o["tell"], mfp), concrete=False, op=op, part="fp")
+                    diverged = True
         else:
             add("model-mismatch", "%s: the model's session ended before this call" % op, concrete=False, op=op, part="length")
+            diverged = True
         dirty = next_dirty(dirty, op)
-    if len(model_trace) > len(obs["ops"]):
+    if not diverged and len(model_trace) > len(obs["ops"]):
         add("model-mismatch", "the implementation's session ended after %d calls, the model's after %d" % (
             len(obs["ops"]), len(model_trace)), concrete=False, part="length")
     # ---- end of the session
@@ -868,7 +875,7 @@ def work_variant_round(args):
     import vlib
     vidx, jobs, workdir, baseline = args
     v = _VARIANTS[vidx]
-    model = vlib.Model()
+    model = _RetryModel()
     try:
         oc = model.call("rs_open_close", v.tree)
         obs = run_jobs(v, jobs, workdir)
@@ -897,6 +904,45 @@ def work_variant_round(args):
 
 
 _VARIANTS = []
+
+
+class _RetryModel:
+    """the extracted model; re-started when the process dies (the executable may be rebuilt by a concurrent check)"""
+
+    def __init__(self):
+        import vlib
+        self.m = None
+        self._start()
+
+    def _start(self):
+        import vlib
+        last = None
+        for k in range(30):
+            try:
+                self.m = vlib.Model()
+                self.m.call("rs_disciplined", [])
+                return
+            except Exception as e:  # noqa
+                last = e
+                time.sleep(1.0)
+        raise last
+
+    def call(self, name, arg):
+        for k in range(5):
+            try:
+                return self.m.call(name, arg)
+            except (RuntimeError, OSError, ValueError, IndexError):
+                try:
+                    self.m.close()
+                except Exception:  # noqa
+                    pass
+                time.sleep(0.5)
+                self._start()
+        return self.m.call(name, arg)
+
+    def close(self):
+        if self.m:
+            self.m.close()
 
 
 def make_variants(archs, tier, fix=(0, 0)):
@@ -1033,6 +1079,8 @@ def run(ctx):
                 meta = []
                 for vidx, v in enumerate(_VARIANTS):
                     lim = 5 if v.name in deep else maxlen
+                    if tier == "quick" and v.kind == "fileobj" and v.nfolders == 1:
+                        lim = 2      # differs from the stream case only in archiveinfo()
                     if length > lim:
                         frontier[vidx] = []
                         continue
@@ -1105,20 +1153,28 @@ def run(ctx):
         rep.extra["max_sequence_length"] = {"all": maxlen, "deep": deep and 5}
         rep.extra.setdefault("distribution", {})["call_outcome"] = dist
         rep.extra["exploration_seconds"] = round(time.time() - t0, 1)
-        # report: one violation per distinct (match keys, archive class), shortest sequence first
-        findings.sort(key=lambda f: (len(f[0]), f[0]))
+        # report: concrete violations first, shortest sequence first; one per distinct (match keys, archive)
+        def seq_of(what):
+            head = what.split(" [")[0]
+            vname, seqs = head.split(": ", 1)
+            return vname, seqs.split(" ")
+        findings.sort(key=lambda f: (not f[2], len(seq_of(f[0])[1]), len(f[0]), f[0]))
         seen = set()
+        n_mm = 0
         for what, mk, concrete in findings:
-            key = json.dumps(mk, sort_keys=True) + what.split(":")[0].split("/")[0]
+            vname, seq = seq_of(what)
+            key = json.dumps(mk, sort_keys=True) + ("" if mk["kind"] == "model-mismatch" else vname.split("/")[0])
             if key in seen:
                 continue
             seen.add(key)
-            if len(rep.violations) >= 8:
+            if mk["kind"] == "model-mismatch":
+                n_mm += 1
+                if n_mm > 4:
+                    continue
+            if len(rep.violations) >= 10:
                 break
-            head = what.split(" [")[0]
-            vname, seqs = head.split(": ", 1)
             ending = what.split(" [", 1)[1].split("]")[0] if " [" in what else "close"
-            rep.violation(what, {"kind": mk["kind"], "variant": vname, "seq": seqs.split(" "), "ending": ending},
+            rep.violation(what, {"kind": mk["kind"], "variant": vname, "seq": seq, "ending": ending},
                           concrete=concrete, match_keys=mk)
     finally:
         shutil.rmtree(root, ignore_errors=True)
